@@ -8,6 +8,7 @@ def scenario(w):
     subs = wrap.subjects(); rec = subs[w['subject']]; name = w['subject']; cname = rec['intended']['cache_name']
     L = ['scenario subj']
     for t in w.get('fills', []): L.append(f"call 0 {name} 0 " + ' '.join(map(str, t)))
+    if w.get('sleep_ms'): L.append(f"sleep_ms {w['sleep_ms']}")
     fresh = {tuple(k): v for k, v in zip(w.get('fresh_keys', []), w.get('fresh', []))}
     for ti, prog in enumerate(w['progs']):
         ops = []
